@@ -60,7 +60,9 @@ def gen_ops(tier, rng):
     ops = []
     big = ["0", "1", "-1", "2", "127", "128", "129", "255", "256", "257", "32768", "65535", "65536", "65537",
            "2147483648", "4611686018427387904", "9223372036854775807", "-9223372036854775808"]
-    flags = ["-", "leo8", "leo16", "cauchy", "par1", "jerasure", "xor", "custom2x3", "leo8,ic-", "ag"]
+    flags = ["-", "leo8", "leo16", "cauchy", "par1", "jerasure", "xor", "custom2x3", "leo8,ic-", "ag",
+             # the Leopard selectors switched off again / combined: the LAST setter decides
+             "leo16f", "leo8f", "leo16,leo16f", "leo8,leo8f", "leo8,leo16f", "leo16,leo8f", "leo16f,leo8", "leo8f,leo16"]
     for d in big:
         for p in big:
             for fl in (flags if tier == "thorough" else rng.sample(flags, 4) + ["-"]):
